@@ -154,6 +154,21 @@ pub struct Cx {
     pub comparisons: u64,
     pub outcomes: HashSet<u64>,
     pub counters: BTreeMap<String, u64>,
+    /// when set, every distinct output seen by `xml_ok` is appended here for the expat cross-check
+    pub out_file: Option<std::io::BufWriter<std::fs::File>>,
+    pub seen_out: HashSet<u64>,
+}
+
+pub fn crc32(data: &[u8]) -> u32 {
+    let mut crc: u32 = 0xFFFF_FFFF;
+    for b in data {
+        crc ^= *b as u32;
+        for _ in 0..8 {
+            let mask = (!(crc & 1)).wrapping_add(1);
+            crc = (crc >> 1) ^ (0xEDB8_8320 & mask);
+        }
+    }
+    !crc
 }
 
 pub fn hash64<T: Hash>(t: &T) -> u64 {
@@ -185,7 +200,31 @@ impl Cx {
             comparisons: 0,
             outcomes: HashSet::new(),
             counters: BTreeMap::new(),
+            out_file: None,
+            seen_out: HashSet::new(),
         }
+    }
+    /// strict well-formedness check with the in-house parser; records the
+    /// distinct documents (verdict, crc32 of the canonical dump, hex) for expat
+    pub fn xml_parse(&mut self, out: &str) -> Result<crate::xmlmini::Document, crate::xmlmini::XmlError> {
+        let r = crate::xmlmini::parse(out);
+        if self.out_file.is_some() {
+            let h = hash64(&out);
+            if self.seen_out.insert(h) {
+                let line = match &r {
+                    Ok(d) => {
+                        let mut s = String::new();
+                        crate::xmlmini::dump(&d.root, &mut s);
+                        format!("1 {} {}\n", crc32(s.as_bytes()), hex(out))
+                    }
+                    Err(_) => format!("0 0 {}\n", hex(out)),
+                };
+                if let Some(f) = self.out_file.as_mut() {
+                    let _ = f.write_all(line.as_bytes());
+                }
+            }
+        }
+        r
     }
     pub fn fail(&mut self, clause: &str, detail: String) {
         self.viols.push(Viol {
@@ -381,6 +420,11 @@ pub fn worker(prop: &dyn Prop, tier: Tier, seed: u64, k: u64, n: u64, from_scope
     }
     let scopes = prop.scopes(tier, seed);
     let mut cx = Cx::new(prop.id());
+    if std::env::var("VERIF_RECORD_OUTPUTS").is_ok() && from_scope == 0 && from_idx == 0 {
+        if let Ok(f) = std::fs::File::create(format!("{}/outputs-{}.txt", run_dir(prop.id()), k)) {
+            cx.out_file = Some(std::io::BufWriter::new(f));
+        }
+    }
     let mut scope_reports: Vec<Value> = vec![];
     let mut samples: Vec<Value> = vec![];
     let mut viol_counts: BTreeMap<String, u64> = BTreeMap::new();
@@ -478,6 +522,9 @@ pub fn worker(prop: &dyn Prop, tier: Tier, seed: u64, k: u64, n: u64, from_scope
             samples.push(l);
         }
         scope_reports.push(json!({"si": si, "name": sc.name, "about": sc.about, "size": idx, "done": done, "skipped_budget": skipped_budget}));
+    }
+    if let Some(f) = cx.out_file.as_mut() {
+        let _ = f.flush();
     }
     let outcomes: Vec<u64> = cx.outcomes.iter().cloned().collect();
     emit(json!({"t":"end","k":k,"conv":cx.conversions,"cmp":cx.comparisons,"states":states,
